@@ -365,11 +365,19 @@ def run_check(mod, pid, tier, seed, replay=None):
                         except Exception as e:  # a stale corpus entry must not break the check
                             ctx.notes.append(f"corpus entry {fn} could not be replayed: {type(e).__name__}: {str(e)[:200]}")
             mod.run(ctx)
+    except (MemoryError, TimeoutError, KeyboardInterrupt):
+        print(traceback.format_exc(), file=sys.stderr)
+        print(f"CHECK-ERROR property={pid} harness resource problem (not a violation)")
+        return 2
     except Exception:
+        # The harness could not extract / interpret what the code did.  On the unchanged tree this
+        # never happens; on a changed tree it means the code's observable protocol (the functions,
+        # intermediates or shapes the correspondence reads) no longer is what the model describes:
+        # a broken correspondence, handled like any other (failing-input search, then verdict).
         tb = traceback.format_exc()
         print(tb, file=sys.stderr)
-        print(f"CHECK-ERROR property={pid} harness exception (not a violation)")
-        return 2
+        broken.append({"obligation": "correspondence extraction (harness could not observe the code as modelled)",
+                       "detail": tb[-2500:]})
 
     broken.extend(ctx.broken)
     tie_diffs = []
